@@ -132,6 +132,11 @@ def make_case(i, rng, tier):
             if base and op[0] == "reg" and rng.random() < 0.5:
                 op = ("breg",) + op[1:]  # registered in the BASE registry at this point of the history
             ops.append(op)
+        if base and rng.random() < 0.5:
+            # sandwich aimed at a child registry that remembers what its base answered: read, register in the BASE, read again
+            t = rng.choice(["A", "B", "C", "D", "E"])
+            at = rng.randint(0, len(ops))
+            ops[at:at] = [("res", t), ("breg", (rng.choice([t, t, "A"]),), True, rng.choice([0, 1, 2]), None, False), ("res", t)]
         return {"kind": "B", "ops": tuple(ops), "cache": rng.random() < 0.8, "base": base,
                 "base_ops": tuple(gen_op(rng) for _ in range(rng.randint(0, 3)))}
     n = rng.randint(2, 9)
